@@ -2395,11 +2395,13 @@ class MultiUserChannelMatrixExtInt(  # pylint: disable=R0904
             = MultiUserChannelMatrixExtInt._prepare_input_parans(
                 Nr, Nt, K, NtE)
 
-        self._extIntK = extIntK
-        self._extIntNt = extIntNt
-
         MultiUserChannelMatrix.init_from_channel_matrix(
             self, channel_matrix, full_Nr, full_Nt, full_K)
+
+        # Only now that the arguments were accepted (the base class method
+        # raises ValueError otherwise, leaving the current channel in place)
+        self._extIntK = extIntK
+        self._extIntNt = extIntNt
 
     def randomize(  # type: ignore
             self, Nr: IntOrIntArrayUnion, Nt: IntOrIntArrayUnion, K: int,
